@@ -167,6 +167,16 @@ def call_spec(name, w, op):
             burst_kwargs=w.bk_amp, threshold_kwargs=w.th_amp, return_samples=False), None
     if name == 'compute_shape_features':
         return compute_shape_features, [('sig', w.sig), ('fs', fs), ('f_range', fr)], dict(center_extrema=w.center, find_extrema_kwargs=w.fek), 'shape'
+    if name == 'compute_shape_features[n_cycles]':
+        # the documented n_cycles argument with default extrema settings
+        return compute_shape_features, [('sig', w.sig), ('fs', fs), ('f_range', fr)], dict(center_extrema=w.center, n_cycles=[2, 4, 5][op % 3]), None
+    if name == 'compute_features[boundary-only]':
+        if not hasattr(w, 'fek_boundary'):
+            w.fek_boundary = {'boundary': 4}
+        return compute_features, [('sig', w.sig), ('fs', fs), ('f_range', fr)], dict(center_extrema=w.center, threshold_kwargs=w.th_cyc,
+                                                                                       find_extrema_kwargs=w.fek_boundary), None
+    if name == 'compute_features[defaults]':
+        return compute_features, [('sig', w.sig), ('fs', fs), ('f_range', fr)], dict(center_extrema=w.center), None
     if name == 'compute_cyclepoints':
         return compute_cyclepoints, [('sig', w.sig), ('fs', fs), ('f_range', fr)], dict(w.fek), 'points'
     if name == 'find_extrema':
@@ -244,7 +254,7 @@ def call_spec(name, w, op):
 
 
 PRODUCERS = ['compute_features[cycles]', 'compute_features[amp]', 'compute_shape_features', 'compute_cyclepoints', 'find_extrema']
-CALLS = PRODUCERS + ['compute_features[amp,nosamples]', 'compute_features_2d[0,dict]', 'compute_features_2d[0,list]', 'compute_features_2d[None]', 'compute_features_2d[None,list]',
+CALLS = PRODUCERS + ['compute_shape_features[n_cycles]', 'compute_features[boundary-only]', 'compute_features[defaults]', 'compute_features[amp,nosamples]', 'compute_features_2d[0,dict]', 'compute_features_2d[0,list]', 'compute_features_2d[None]', 'compute_features_2d[None,list]',
                      'compute_features_3d', 'compute_burst_features[cycles]', 'compute_burst_features[amp]', 'compute_amp_fraction',
                      'compute_amp_consistency', 'compute_period_consistency', 'compute_monotonicity', 'compute_burst_fraction', 'find_zerox',
                      'extrema_interpolated_phase', 'recompute_edges', 'limit_df', 'epoch_df', 'drop_samples_df', 'plot_burst_detect_summary',
